@@ -374,16 +374,20 @@ def rule_semtok_tables(prog):
         ok = d > 0 and d == (1 << bit) and bit < len(mods) and mods[bit] is not None and mods[bit].lower() == v["name"].lower()
         out.add("semantic_tokens::SemanticTokenModifier", "T6 %s = bit of TOKEN_MODIFIERS" % v["name"], ok,
                 c.loc(em["sp"]), "discriminant %d, modifiers %s" % (d, mods), ("T6",))
-    # main.rs must publish exactly these two constants as the legend
-    main = prog.body("lsp4spl::main")
-    used = set()
-    if main:
-        for n in hir.nodes(main["body"], "Path"):
-            r = n["res"]
-            if r.get("k") == "Def" and r["p"].startswith("lsp4spl::features::semantic_tokens::TOKEN_"):
-                used.add(last(r["p"]))
-    out.add("main", "T6 legend published from TOKEN_TYPES/TOKEN_MODIFIERS", used == {"TOKEN_TYPES", "TOKEN_MODIFIERS"},
-            c.loc(main["sp"]) if main else "", "found %s" % sorted(used), ("T6",))
+    # the legend announced to the client is built from exactly these two constants
+    used = {}
+    loc = ""
+    for b in c.bodies:
+        for st in hir.nodes(b["body"], "Struct"):
+            if (st.get("adt") or "").endswith("SemanticTokensLegend"):
+                loc = c.loc(st["sp"])
+                for f in st["fields"]:
+                    for n in hir.nodes(f["e"], "Path"):
+                        r = n["res"]
+                        if r.get("k") == "Def" and r["p"].startswith("lsp4spl::features::semantic_tokens::TOKEN_"):
+                            used[f["name"]] = last(r["p"])
+    out.add("SemanticTokensLegend", "T6 legend published from TOKEN_TYPES/TOKEN_MODIFIERS",
+            used == {"token_types": "TOKEN_TYPES", "token_modifiers": "TOKEN_MODIFIERS"}, loc, "found %s" % used, ("T6",))
     return out
 
 
